@@ -99,6 +99,7 @@ func checkC05(c *Ctx) {
 	c.Rule("C05.R2.coverage", "each serializer reads and writes every declared property, member, item and additional value", 27)
 	checkEmitRules(c, "C05.R2.coverage", ev, serializerRules)
 	checkSerializerPairs(c, ev)
+	checkRangeFilters(c, "C05.R1.range-filters", ev, reviewedRangeFilters, 25)
 	checkDecoders(c, ev, gen)
 	checkReceiverAssignmentOrder(c, ev)
 	checkDiscriminatorAgreement(c, "C05.R4.discriminator", gen)
